@@ -389,7 +389,7 @@ func mapObjectProperties(mm map[string][]byte, o *Object) (hasData bool, err err
 		}
 		hasData = true
 	}
-	if o.Duration > 0 {
+	if o.Duration != 0 {
 		if mm["duration"], err = gobEncodeInt64(int64(o.Duration)); err != nil {
 			return hasData, err
 		}
